@@ -103,6 +103,66 @@ fn sign_raw(p: &Party, fragment: &str, payload: &[u8], opts: &JwsSignatureOption
   r.map(|j| j.as_str().to_owned()).map_err(|e| e.to_string())
 }
 
+/// Names of the crash probes of C16: each runs in a CHILD process (see `core::batch`), because what it looks for - a
+/// stack overflow - is not a panic, cannot be caught and would take the simulator down with it.
+pub fn crash_probes(_tier: &str) -> Vec<String> {
+  vec!["disclosure-chain-128".to_owned(), "disclosure-chain-20000".to_owned()]
+}
+
+/// Child-process side of a crash probe. An issuer signs an SD-JWT whose disclosures form a chain: the claims conceal
+/// one property whose disclosed value is an object that conceals one property whose disclosed value ... `links` times.
+/// Every single JSON text involved (the claims, each disclosure) is two levels deep; depth only arises when the
+/// verifier substitutes the disclosures into each other. The verifier runs on a thread with a 2 MiB stack (the default
+/// of a spawned Rust thread, i.e. what a tokio worker or a request handler has). Returns "accepted" / "error: .." when
+/// the library returns; a panic is reported as "panic: .."; a stack overflow ends the process with SIGABRT / SIGSEGV.
+pub fn run_crash_probe(name: &str) -> String {
+  let links: usize = name.rsplit('-').next().and_then(|n| n.parse().ok()).unwrap_or(128);
+  let mut issuer = Party::new("issuer", false, 0);
+  let _ = issuer.gen_method("sign", Some(1));
+  let c = serde_json::json!({
+    "@context": "https://www.w3.org/2018/credentials/v1",
+    "id": "https://cred.example/sd/chain",
+    "type": ["VerifiableCredential", "SimSdCredential"],
+    "issuer": issuer.did,
+    "issuanceDate": crate::core::time::rfc3339(ctx::BASE_TIME - 10),
+    "credentialSubject": {"id": "did:sim:holder0", "name": "Holder"}
+  });
+  let cred = Credential::<Object>::from_json_value(c).expect("probe credential");
+  let payload = cred.serialize_jwt(None).expect("probe credential serialises");
+  let mut claims: Value = serde_json::from_str(&payload).expect("claims are JSON");
+  // innermost first
+  let mut disclosures: Vec<String> = Vec::with_capacity(links);
+  let mut inner = crate::core::b64::encode(serde_json::json!(["c2FsdA", "leaf", "value"]).to_string().as_bytes());
+  for i in 1..links {
+    let d = serde_json::json!([format!("s{i}"), "n", {"_sd": [digest_of(&inner)]}]).to_string();
+    disclosures.push(inner);
+    inner = crate::core::b64::encode(d.as_bytes());
+  }
+  claims["vc"]["credentialSubject"]["_sd"] = serde_json::json!([digest_of(&inner)]);
+  disclosures.push(inner);
+  disclosures.reverse();
+  let opts = JwsSignatureOptions::default().typ("sd-jwt".to_owned());
+  let jwt = sign_raw(&issuer, "sign", claims.to_string().as_bytes(), &opts).expect("issuer signs");
+  let issuer_doc: CoreDocument = issuer.doc.core().clone();
+  let worker = std::thread::Builder::new().stack_size(2 * 1024 * 1024).spawn(move || {
+    let sd = SdJwt::new(jwt, disclosures, None);
+    let validator = SdJwtCredentialValidator::with_signature_verifier(EdDSAJwsVerifier::default(), SdObjectDecoder::new_with_sha256());
+    let r = std::panic::catch_unwind(std::panic::AssertUnwindSafe(|| {
+      validator.validate_credential::<_, Object>(&sd, &issuer_doc, &JwtCredentialValidationOptions::default(), FailFast::FirstError)
+    }));
+    match r {
+      Ok(Ok(_)) => "accepted".to_owned(),
+      Ok(Err(e)) => format!("error: {e}"),
+      Err(_) => "panic".to_owned(),
+    }
+  });
+  match worker.map(|w| w.join()) {
+    Ok(Ok(s)) => s,
+    Ok(Err(_)) => "panic: verifier thread".to_owned(),
+    Err(e) => format!("harness: cannot spawn verifier thread: {e}"),
+  }
+}
+
 /// Collects every digest mentioned in `_sd` arrays and `...` array entries of a JSON value.
 fn digests_in(v: &Value, out: &mut BTreeSet<String>) {
   match v {
